@@ -62,10 +62,10 @@ func shapeOf(t reflect.Type) *itemShape {
 				f.Class = fcScalar
 			}
 			if _, ok := tags[model.EEBusTagKey]; ok {
-				if ek == reflect.Uint || ek == reflect.String {
-					f.Class = fcKey
+				if ek == reflect.Uint || ek == reflect.String || ek == reflect.Struct {
+					f.Class = fcKey // (structured identifiers: addresses)
 				} else {
-					f.Class = fcOther // struct-typed keys are not generated
+					f.Class = fcOther
 				}
 			}
 			if _, ok := tags[model.EEBusTagWriteCheck]; ok && ek == reflect.Bool {
@@ -185,7 +185,7 @@ func (s *itemShape) hasStructKey() bool {
 				return true
 			}
 			k := sf.Type.Elem().Kind()
-			if k != reflect.Uint && k != reflect.String {
+			if k != reflect.Uint && k != reflect.String && k != reflect.Struct {
 				return true
 			}
 		}
@@ -220,12 +220,49 @@ func (w *World) setScalar(fv reflect.Value, f itemField) {
 //go:norace
 func setKey(fv reflect.Value, f itemField, id uint) {
 	p := reflect.New(fv.Type().Elem())
-	if f.Kind == reflect.String {
+	switch f.Kind {
+	case reflect.String:
 		p.Elem().SetString(fmt.Sprintf("k%d", id))
-	} else {
+	case reflect.Struct:
+		fillKeyStruct(p.Elem(), id)
+	default:
 		p.Elem().SetUint(uint64(id))
 	}
 	fv.Set(p)
+}
+
+// fillKeyStruct makes the structured identifier number id: every scalar member is id / "k<id>",
+// every list member has the one element id.
+//
+//go:norace
+func fillKeyStruct(v reflect.Value, id uint) {
+	set := func(e reflect.Value) {
+		switch e.Kind() {
+		case reflect.String:
+			e.SetString(fmt.Sprintf("k%d", id))
+		case reflect.Uint, reflect.Uint64, reflect.Uint32:
+			e.SetUint(uint64(id))
+		case reflect.Int, reflect.Int64, reflect.Int32:
+			e.SetInt(int64(id))
+		}
+	}
+	for i := 0; i < v.NumField(); i++ {
+		f := v.Field(i)
+		switch {
+		case f.Kind() == reflect.Ptr && f.Type().Elem().Kind() == reflect.Struct:
+			p := reflect.New(f.Type().Elem())
+			fillKeyStruct(p.Elem(), id)
+			f.Set(p)
+		case f.Kind() == reflect.Ptr:
+			p := reflect.New(f.Type().Elem())
+			set(p.Elem())
+			f.Set(p)
+		case f.Kind() == reflect.Slice && f.Type().Elem().Kind() != reflect.Struct:
+			e := reflect.New(f.Type().Elem()).Elem()
+			set(e)
+			f.Set(reflect.Append(reflect.MakeSlice(f.Type(), 0, 1), e))
+		}
+	}
 }
 
 // GenItem builds one item. ids gives the key values (nil = no identifiers); fillNum/fillDen
@@ -262,6 +299,15 @@ func (w *World) GenItem(t reflect.Type, ids []uint, fillNum, fillDen int, wc *bo
 			if w.T.Bool(fillNum, 2*fillDen, "field:"+f.Name) {
 				w.genSlice(fv)
 				w.Probe("gen-list-valued-element")
+			}
+		case fcOther:
+			// structured elements (addresses, intervals, ... also as identifiers): only where the
+			// scenario asks for them
+			if w.GenStructs && fv.Kind() == reflect.Ptr && fv.Type().Elem().Kind() == reflect.Struct && w.T.Bool(1, 2, "field:"+f.Name) {
+				p := reflect.New(fv.Type().Elem())
+				w.fillStruct(p.Elem(), 0)
+				fv.Set(p)
+				w.Probe("gen-structured-element")
 			}
 		}
 	}
@@ -406,6 +452,11 @@ func GenSelector(info FnInfo, ids []uint) any {
 			p.Elem().SetString(fmt.Sprintf("k%d", ids[ki]))
 		case reflect.Uint:
 			p.Elem().SetUint(uint64(ids[ki]))
+		case reflect.Struct:
+			if f.Type() != info.ItemType.Field(k.Idx).Type {
+				continue
+			}
+			fillKeyStruct(p.Elem(), ids[ki])
 		default:
 			continue
 		}
@@ -436,7 +487,18 @@ func (w *World) GenSelectorWide(info FnInfo, ids []uint) any {
 	}
 	for i := 0; i < fi.SelType.NumField(); i++ {
 		f := sel.Elem().Field(i)
-		if f.Kind() != reflect.Ptr || !f.IsNil() || !scalarKind(f.Type().Elem().Kind()) {
+		if f.Kind() != reflect.Ptr || !f.IsNil() {
+			continue
+		}
+		if w.GenStructs && f.Type().Elem().Kind() == reflect.Struct {
+			// a structured member (an address, an interval, nested selectors)
+			p := reflect.New(f.Type().Elem())
+			w.fillStruct(p.Elem(), 0)
+			f.Set(p)
+			w.Probe("gen-structured-selector-member")
+			continue
+		}
+		if !scalarKind(f.Type().Elem().Kind()) {
 			continue
 		}
 		p := reflect.New(f.Type().Elem())
@@ -444,6 +506,53 @@ func (w *World) GenSelectorWide(info FnInfo, ids []uint) any {
 		f.Set(p)
 	}
 	return sel.Interface()
+}
+
+// fillStruct fills a structured element over a small domain: scalar members are 1 / "k1" (so
+// that two generated values of one type are often equal), structured members and lists are
+// filled one level down.
+//
+//go:norace
+func (w *World) fillStruct(v reflect.Value, depth int) {
+	for i := 0; i < v.NumField(); i++ {
+		f := v.Field(i)
+		if !f.CanSet() {
+			continue
+		}
+		small := func(e reflect.Value) {
+			n := 1 + w.T.Choose(2, "small")
+			switch e.Kind() {
+			case reflect.String:
+				e.SetString(fmt.Sprintf("k%d", n))
+			case reflect.Uint, reflect.Uint64, reflect.Uint32:
+				e.SetUint(uint64(n))
+			case reflect.Int, reflect.Int64, reflect.Int32:
+				e.SetInt(int64(n))
+			case reflect.Float64:
+				e.SetFloat(float64(n))
+			case reflect.Bool:
+				e.SetBool(n == 1)
+			}
+		}
+		switch {
+		case f.Kind() == reflect.Ptr && scalarKind(f.Type().Elem().Kind()):
+			p := reflect.New(f.Type().Elem())
+			small(p.Elem())
+			f.Set(p)
+		case f.Kind() == reflect.Ptr && f.Type().Elem().Kind() == reflect.Struct && depth < 2:
+			p := reflect.New(f.Type().Elem())
+			w.fillStruct(p.Elem(), depth+1)
+			f.Set(p)
+		case f.Kind() == reflect.Slice && scalarKind(f.Type().Elem().Kind()):
+			e := reflect.New(f.Type().Elem()).Elem()
+			small(e)
+			f.Set(reflect.Append(reflect.MakeSlice(f.Type(), 0, 1), e))
+		case f.Kind() == reflect.Slice && f.Type().Elem().Kind() == reflect.Struct && depth < 2:
+			e := reflect.New(f.Type().Elem()).Elem()
+			w.fillStruct(e, depth+1)
+			f.Set(reflect.Append(reflect.MakeSlice(f.Type(), 0, 1), e))
+		}
+	}
 }
 
 // SelectorCoversKeys reports whether the selectors type has a field for every key field of the
@@ -464,7 +573,8 @@ func SelectorCoversKeys(info FnInfo) bool {
 		if !ok || f.Type.Kind() != reflect.Ptr {
 			return false
 		}
-		if ek := f.Type.Elem().Kind(); ek != reflect.Uint && ek != reflect.String {
+		if ek := f.Type.Elem().Kind(); ek != reflect.Uint && ek != reflect.String &&
+			!(ek == reflect.Struct && f.Type == info.ItemType.Field(k.Idx).Type) {
 			return false
 		}
 	}
